@@ -88,6 +88,7 @@ fn main() {
         "c13_order" => c13::order(thorough),
         "c14_normalize" => c14::normalize(thorough),
         "c17_argv" => c17::argv_roundtrip(thorough),
+        "c17_glue" => c17::glue(thorough),
         "c18_inventory" => c18::inventory(thorough),
         other => {
             eprintln!("unknown check {other}");
